@@ -1,7 +1,7 @@
 SPECIFICATION Spec
 CONSTANTS
   Profile = "core"
-  MaxEntries = 4
+  MaxEntries = 3
   Scope = "direct"
   WithTcp = FALSE
 VIEW View
